@@ -28,6 +28,7 @@ _SKIP_ATTRS = {"_request_manager", "sys_log", "pcap", "_parent", "parent", "_nx_
 _UUID = re.compile(r"[0-9a-f]{8}-[0-9a-f]{4}-[0-9a-f]{4}-[0-9a-f]{4}-[0-9a-f]{12}")
 _MAC = re.compile(r"(?<![0-9a-f:])(?:[0-9a-f]{2}:){5}[0-9a-f]{2}(?![0-9a-f:])")
 _TS = re.compile(r"\d{4}-\d{2}-\d{2}[T ]\d{2}:\d{2}:\d{2}(?:\.\d+)?")
+_ADDR = re.compile(r" at 0x[0-9a-f]{6,}")
 
 
 class Canon:
@@ -49,6 +50,7 @@ class Canon:
         s = _UUID.sub(lambda m: self._name("id", m.group(0)), s)
         s = _MAC.sub(lambda m: self._name("mac", m.group(0)), s)
         s = _TS.sub("<ts>", s)
+        s = _ADDR.sub(" at <addr>", s)
         return s
 
 
